@@ -713,9 +713,137 @@ func c03Interior(r *RNG, idx int) c03Line {
 	return line
 }
 
+// ---------- recursive nodes reachable through DIRECT pointer fields: a text-unmarshalable node type ----------
+//
+// Pointerify does not look inside a struct that implements encoding.TextUnmarshaler, so `*TN` can be a config field
+// although TN is recursive.  Defaults and a source value both hold cyclic / shared TN graphs; the stacked config
+// takes each field from the source if it set it, else from the defaults - with the identities inside each graph kept
+// (a field taken from the source is the SAME node as the source's other references to it).  Direct oracle only.
+type TN struct {
+	Name string
+	Next *TN
+}
+
+func (t *TN) UnmarshalText(b []byte) error { t.Name = string(b); return nil }
+
+type TCfg struct {
+	Head *TN
+	Tail *TN
+	All  []*TN
+}
+
+type tnSource struct{ v *TCfg }
+
+func (s tnSource) Value(_ context.Context, t *dials.Type) (reflect.Value, error) {
+	out := reflect.New(t.Type()).Elem()
+	in := reflect.ValueOf(s.v).Elem()
+	for i := 0; i < in.NumField(); i++ {
+		f := in.Field(i)
+		if (f.Kind() == reflect.Ptr || f.Kind() == reflect.Slice) && f.IsNil() {
+			continue
+		}
+		out.Field(i).Set(f.Convert(out.Field(i).Type()))
+	}
+	return out, nil
+}
+
+func c03TUConfig(r *RNG, idx int) c03Line {
+	line := c03Line{Idx: idx, Dist: []string{"via/Config+source (TextUnmarshaler nodes)"}}
+	ring := func(prefix string, n int) []*TN {
+		ns := make([]*TN, n)
+		for i := range ns {
+			ns[i] = &TN{Name: fmt.Sprintf("%s%d", prefix, i)}
+		}
+		for i := range ns {
+			switch r.Intn(4) {
+			case 0:
+				ns[i].Next = ns[i] // self-loop
+			case 1:
+			default:
+				ns[i].Next = ns[(i+1)%n]
+			}
+		}
+		return ns
+	}
+	dn := ring("d", 1+r.Intn(3))
+	def := &TCfg{}
+	if r.Chance(75) {
+		def.Head = dn[0]
+	}
+	if r.Chance(60) {
+		def.Tail = dn[r.Intn(len(dn))] // may be the very node Head points to
+	}
+	if r.Chance(40) {
+		def.All = append([]*TN(nil), dn...)
+	}
+	sn := ring("s", 1+r.Intn(3))
+	src := &TCfg{}
+	if r.Chance(75) {
+		src.Head = sn[0]
+	}
+	if r.Chance(35) {
+		src.Tail = sn[r.Intn(len(sn))]
+	}
+	if r.Chance(60) {
+		src.All = append([]*TN(nil), sn[:1+r.Intn(len(sn))]...)
+	}
+	// the stack, field by field (the source's graph and the defaults' graph are disjoint)
+	exp := &TCfg{Head: def.Head, Tail: def.Tail, All: def.All}
+	if src.Head != nil {
+		exp.Head = src.Head
+	}
+	if src.Tail != nil {
+		exp.Tail = src.Tail
+	}
+	if src.All != nil {
+		exp.All = src.All
+	}
+	strs := map[string]int{}
+	want := canonGoExported(reflect.ValueOf(exp).Elem(), strs)
+	defBefore := canonGoExported(reflect.ValueOf(def).Elem(), strs)
+	srcBefore := canonGoExported(reflect.ValueOf(src).Elem(), strs)
+	cs := map[string]any{"via": "Config with one source; recursive TextUnmarshaler nodes behind direct pointer fields", "defaults": defBefore, "source": srcBefore}
+	line.Canon = "tu " + defBefore + " | " + srcBefore
+	line.Sample = cs
+	line.Nontrivial = def.Head != nil && src.Head != nil
+	var out *TCfg
+	var cerr error
+	pn := catch(func() {
+		d, err := dials.Config(context.Background(), def, tnSource{src})
+		if err != nil {
+			cerr = err
+			return
+		}
+		out = d.View()
+	})
+	if pn != "" || cerr != nil {
+		line.Findings = append(line.Findings, Finding{Kind: "violation", What: "Config failed: " + pn + fmt.Sprint(cerr), Case: cs})
+		return line
+	}
+	if got := canonGoExported(reflect.ValueOf(out).Elem(), strs); got != want {
+		line.Findings = append(line.Findings, Finding{Kind: "violation", What: "the stacked config is not isomorphic to the field-wise stack of the supplied graphs (values, identical references, cycles)", Case: cs, Expected: want, Observed: got})
+	}
+	if canonGoExported(reflect.ValueOf(def).Elem(), strs) != defBefore || canonGoExported(reflect.ValueOf(src).Elem(), strs) != srcBefore {
+		line.Findings = append(line.Findings, Finding{Kind: "violation", What: "Config modified the defaults or the source's value", Case: cs})
+	}
+	_, inA := canonGo(reflect.ValueOf(def).Elem(), strs)
+	_, inB := canonGo(reflect.ValueOf(src).Elem(), strs)
+	_, outA := canonGo(reflect.ValueOf(out).Elem(), strs)
+	for a := range outA {
+		if inA[a] || inB[a] {
+			line.Findings = append(line.Findings, Finding{Kind: "violation", What: "the stacked config shares memory with the defaults or the source's value", Case: cs})
+			break
+		}
+	}
+	return line
+}
+
 func c03Case(drv *Driver, r *RNG, idx int) c03Line {
 	if r.Chance(10) {
 		return c03Interior(r, idx)
+	}
+	if r.Chance(8) {
+		return c03TUConfig(r, idx)
 	}
 	line := c03Line{Idx: idx}
 	viaConfig := r.Chance(35)
